@@ -68,7 +68,7 @@ def run(ctx):
         ds = [a for a in fx.find(domain="comb") if a.t == f"self.simple_csrs[i].{strobe}"]
         ok = len(ds) == 1 and ds[0].v == src
         if ok:
-            G = B.guard_formula(ds[0].guards)
+            G = ds[0].eff()
             ok = B.equivalent(G, B.from_expr(f"sel & (bus.adr[:{k}] == i)"))
         ctx.ob("R1", BUS, "CSRBank", f"csr[i].{strobe} <- {src} under sel & (adr[:k] == i)", ok,
                "" if ok else f"{[(a.v, a.gtext()) for a in ds]}: accesses to other addresses/banks strobe this register",
@@ -82,7 +82,7 @@ def run(ctx):
     ok = len(zero) == 1 and not zero[0].guards and len(word) == 1 and len(dr) == 2
     if ok:
         ok = fx.assigns.index(zero[0]) < fx.assigns.index(word[0]) and \
-            B.equivalent(B.guard_formula(word[0].guards), B.from_expr(f"sel & (bus.adr[:{k}] == i)"))
+            B.equivalent(word[0].eff(), B.from_expr(f"sel & (bus.adr[:{k}] == i)"))
     ctx.ob("R1", BUS, "CSRBank", "dat_r: zero first, then the addressed word under sel (registered)", ok,
            "" if ok else f"{[(a.v, a.gtext()) for a in dr]}: a bank that is not addressed would not drive zero onto the OR-combined bus",
            word[0].line if word else 0)
@@ -97,14 +97,14 @@ def run(ctx):
     ok = len(sr) == 1 and sr[0].v == "sel" and not sr[0].guards
     ctx.ob("R1", BUS, "SRAM", "sel_r is the registered sel (data returns one cycle later)", ok, "" if ok else f"{[(a.v, a.gtext()) for a in sr]}")
     for a in fx.find(domain="comb", target="bus.dat_r"):
-        ok = B.equivalent(B.guard_formula(a.guards), B.A("sel_r"))
+        ok = B.equivalent(a.eff(), B.A("sel_r"))
         ctx.ob("R1", BUS, "SRAM", "dat_r driven only under sel_r", ok, "" if ok else f"under {a.gtext()}", a.line)
     for a in fx.find(domain="comb", target="port.we"):
         ok = B.entails(B.from_expr(a.value), B.from_expr("sel & bus.we")) and ("read_only", False) in a.pyguards
         ctx.ob("R1", BUS, "SRAM", "port.we needs sel & bus.we, only when not read_only", ok, "" if ok else f"port.we <= {a.v} {a.pyguards}", a.line)
     wr = fx.find(domain="sync", target="wreg")
     for a in wr:
-        G = B.guard_formula(a.guards)
+        G = a.eff()
         ok = B.equivalent(G, B.from_expr("sel & bus.we & (bus.adr[:word_bits] == i)"))
         ctx.ob("R1", BUS, "SRAM", "staging register i loaded on a write to sub-word i", ok, "" if ok else f"under {B.show(G)}", a.line)
     pa = fx.find(domain="comb", target="port.adr")
@@ -125,16 +125,16 @@ def run(ctx):
     ok = nbt in ("min(size - i * busword, busword)", "min(self.size - i * busword, busword)")
     ctx.ob("R2", CSR, "CSRStorage.do_finalize", "nbits = min(size - i*busword, busword)", ok, "" if ok else f"nbits = {nbt}")
     plain = [a for a in fxs.find(domain="sync") if a.t == "self.storage[i * busword:i * busword + nbits]"]
-    ok = len(plain) == 1 and plain[0].v == "sc.r" and B.equivalent(B.guard_formula(plain[0].guards), B.A("sc.re"))
+    ok = len(plain) == 1 and plain[0].v == "sc.r" and B.equivalent(plain[0].eff(), B.A("sc.re"))
     ctx.ob("R2", CSR, "CSRStorage.do_finalize", "non-atomic: word i written through the same slice under its own strobe", ok,
            "" if ok else f"{[(a.t, a.v, a.gtext()) for a in fxs.find(domain='sync')]}", plain[0].line if plain else 0)
     bs = [a for a in fxs.find(domain="sync") if a.t.startswith("backstore[")]
     ok = len(bs) == 1 and bs[0].t == "backstore[i * busword - busword:i * busword + nbits - busword]" and bs[0].v == "sc.r" and \
-        B.equivalent(B.guard_formula(bs[0].guards), B.A("sc.re")) and ("i", True) in bs[0].pyguards
+        B.equivalent(bs[0].eff(), B.A("sc.re")) and ("i", True) in bs[0].pyguards
     ctx.ob("R2", CSR, "CSRStorage.do_finalize", "atomic: words != 0 go to backstore[lo-busword : hi-busword] under their strobe", ok,
            "" if ok else f"{[(a.t, a.v, a.gtext(), a.pyguards) for a in bs]}", bs[0].line if bs else 0)
     cm = [a for a in fxs.find(domain="sync", target="self.storage") if "backstore" in a.v]
-    ok = len(cm) == 1 and cm[0].v == "Cat(sc.r, backstore)" and B.equivalent(B.guard_formula(cm[0].guards), B.A("sc.re")) and \
+    ok = len(cm) == 1 and cm[0].v == "Cat(sc.r, backstore)" and B.equivalent(cm[0].eff(), B.A("sc.re")) and \
         ("i", False) in cm[0].pyguards
     ctx.ob("R2", CSR, "CSRStorage.do_finalize", "atomic: word 0 commits Cat(sc.r, backstore) under its strobe", ok,
            "" if ok else f"{[(a.v, a.gtext(), a.pyguards) for a in cm]}", cm[0].line if cm else 0)
@@ -142,7 +142,7 @@ def run(ctx):
     ok = len(re_) == 1 and re_[0].v == "sc.re" and not re_[0].guards and not re_[0].loops
     ctx.ob("R2", CSR, "CSRStorage.do_finalize", "re = registered strobe of the last iterated word", ok, "" if ok else f"{[(a.v, a.loops) for a in re_]}")
     dev = [a for a in fxs.find(domain="sync", target="self.storage") if a.v == "self.dat_w"]
-    ok = len(dev) == 1 and B.equivalent(B.guard_formula(dev[0].guards), B.A("self.we")) and ("write_from_dev", True) in dev[0].pyguards
+    ok = len(dev) == 1 and B.equivalent(dev[0].eff(), B.A("self.we")) and ("write_from_dev", True) in dev[0].pyguards
     ctx.ob("R2", CSR, "CSRStorage.__init__", "device write: separate assignment under self.we", ok, "" if ok else f"{[(a.v, a.gtext()) for a in dev]}")
     fxt = FX(ctx, CSR, cls="CSRStatus", entries=("__init__", "do_finalize"))
     fail_closed(ctx, fxt, "CSRStatus")
@@ -151,7 +151,7 @@ def run(ctx):
     ctx.ob("R2", CSR, "CSRStatus.do_finalize", "word i reads status[i*busword : +nbits]", ok, "" if ok else f"{[a.v for a in rd]}")
     wr = [a for a in fxt.find(domain="sync") if a.t.startswith("self.r[")]
     ok = len(wr) == 1 and wr[0].t == "self.r[i * busword:i * busword + nbits]" and wr[0].v == "sc.r" and \
-        B.equivalent(B.guard_formula(wr[0].guards), B.A("sc.re")) and ("read_only", False) in wr[0].pyguards
+        B.equivalent(wr[0].eff(), B.A("sc.re")) and ("read_only", False) in wr[0].pyguards
     ctx.ob("R2", CSR, "CSRStatus.do_finalize", "writable status: word i written through the same slice under its strobe", ok,
            "" if ok else f"{[(a.t, a.v, a.gtext()) for a in wr]}")
     we = fxt.find(domain="comb", target="self.we")
@@ -236,7 +236,7 @@ def run(ctx):
     ok = len(fl) == 2 and all(a.v == "self.storage[field.offset:field.offset + field.size]" for a in fl)
     ctx.ob("R3", CSR, "CSRStorage.__init__", "field = storage[offset : offset+size]", ok, "" if ok else f"{[a.v for a in fl]}")
     pul = [a for a in fl if ("field.pulse", True) in a.pyguards]
-    ok = len(pul) == 1 and B.equivalent(B.guard_formula(pul[0].guards), B.A("self.re"))
+    ok = len(pul) == 1 and B.equivalent(pul[0].eff(), B.A("self.re"))
     ctx.ob("R3", CSR, "CSRStorage.__init__", "pulse fields visible only in the write-strobe cycle", ok, "" if ok else f"{[(a.gtext(), a.pyguards) for a in pul]}")
     sf = [a for a in fxt.find(domain="comb") if a.t.startswith("self.status[")]
     ok = len(sf) == 1 and sf[0].t == "self.status[fields[_field].offset:fields[_field].offset + fields[_field].size]" and \
